@@ -60,6 +60,10 @@ CLAIMED = {
  "C19": ("exploration", "exhaustive enumeration of banned-directive configurations (all sets of size <= 2 over the 31 kinds) x a project set with every kind in every placement",
          "For all 497 banned sets and every project of the set (each kind written directly, inside an INCLUDEd file, inside a pasted MACRO body, inside an unpasted MACRO body, and absent): a banned kind occurs => rejected with the not-allowed error located on a directive of that kind; none occurs => the result equals the build without the option.",
          "Projects are minimal valid documents per kind plus all-kinds documents; banned sets larger than 2 are not enumerated."),
+
+ "C06": ("model_checking", "stateless DFS over map-iteration orders on the real code: every `range <map>` of jsight-api-core and jsight-schema-core is rewritten by a type-directed build overlay to take its order from the explorer (deviation-bounded), plus same-process / cross-process / after-another-build repetition",
+         "For every project all executions with at most `bound` non-canonically ordered map ranges are run (all permutations for maps of up to 4 keys) and must produce identical catalog + OpenAPI bytes or an identical error tuple; each diverging execution is replayed twice; every project is also built twice in one process, in a second process, and every ordered pair of the hand-written set is built in one process.",
+         "Any order the explorer picks is an order the Go runtime may pick; the rewritten loop re-checks the key before each iteration (Go's semantics for entries deleted during the loop). Orders beyond the deviation bound, addresses and time are covered only by the repetition runs. Large corpus projects are capped (reported as not exhaustive)."),
 }
 
 NOT_YET = {}
